@@ -34,3 +34,22 @@ Definition count_qmark (q : bytes) : Z :=
 Definition has_qmark (q : bytes) : bool := existsb (fun b => Byte.eqb b x3f) q.
 Definition has_dollar_index (q : bytes) : bool :=
   match dollar_indices q with [] => false | _ => true end.
+
+(* linear-time versions used by the executable oracle (the accumulator is kept
+   reversed); equal to the definitions above (ParamsFacts.split_dollar_fast_eq) *)
+Fixpoint split_dollar_fast (cur_rev : bytes) (q : bytes) : list bytes :=
+  match q with
+  | [] => [rev_append cur_rev []]
+  | b :: r => if Byte.eqb b x24 then rev_append cur_rev [] :: split_dollar_fast [] r
+              else split_dollar_fast (b :: cur_rev) r
+  end.
+
+Definition dollar_indices_fast (q : bytes) : list Z :=
+  flat_map (fun piece => match leading_digits piece with
+                         | [] => []
+                         | ds => [dec_val ds]
+                         end)
+           (tl (split_dollar_fast [] q)).
+Definition max_index_fast (q : bytes) : Z := fold_left Z.max (dollar_indices_fast q) 0%Z.
+Definition has_dollar_index_fast (q : bytes) : bool :=
+  match dollar_indices_fast q with [] => false | _ => true end.
